@@ -4,8 +4,13 @@
    get), and the total functions update / merge / collect_env.
 
    A configuration is a finite tree
-        Leaf(v)   a scalar value v
+        Leaf(v)   a scalar value v: a number, or (v in DOMAIN StrHas) a text scalar
         Dict(f)   a mapping  f : key string -> tree
+   Text scalars matter because Python answers `key in "text"` (a substring test)
+   where it raises for a number: the code gets further into _assign before it fails.
+   TLC cannot compare numbers with strings nor search substrings, so a text scalar
+   is a code number whose substring relation to the key universe is a table (StrHas);
+   the harness maps 901 <-> "zzz", 902 <-> "abc", 903 <-> "a_b".
    Keys come in hyphen/underscore spellings ("a-b" / "a_b"); TLC cannot edit
    strings, so the twin relation is a table (Twins); the harness only uses keys
    of this universe.
@@ -21,6 +26,12 @@ EmptyF  == [k \in {} |-> 0]
 Empty   == Dict(EmptyF)
 IsDict(n) == n.t = "D"
 IsLeaf(n) == n.t = "L"
+\* text scalar |-> the keys of the universe that are substrings of it
+StrHas == (901 :> {}) @@ (902 :> {"a", "b", "c"}) @@ (903 :> {"a", "b", "a_b"})
+IsStr(n) == IsLeaf(n) /\ n.v \in DOMAIN StrHas
+\* set.__init__ used to append the undo entry BEFORE the assignment it undoes (dask before 52c0f2a).
+\* FALSE = the code as it is; a model that overrides it with TRUE must violate FailedSetIsAtomic.
+RecordFirst == FALSE
 
 Put(f, k, v) == [x \in (DOMAIN f) \cup {k} |-> IF x = k THEN v ELSE f[x]]
 Del(f, k)    == [x \in (DOMAIN f) \ {k} |-> f[x]]
@@ -71,11 +82,25 @@ Ins(p)    == [op |-> "insert",  p |-> p, v |-> Empty]
 Rep(p, v) == [op |-> "replace", p |-> p, v |-> v]
 Failed(n) == [ok |-> FALSE, n |-> n, r |-> <<>>]
 
+\* canonical_name(k, d) when d is a text scalar: `k in d` is a substring test
+CanonStr(k, v) == IF k \in StrHas[v] THEN k ELSE IF Alt(k) \in StrHas[v] THEN Alt(k) ELSE k
+
 \* transcription of set._assign(keys, value, d, path, record); d = node n.
-\* Descending into a scalar raises (TypeError: `key in d`).
+\* Result: ok, the new node, and the undo entries appended to _record - also when the call
+\* raises (ok = FALSE): what was appended before the exception stays in _record.
+\*   d a number : canonical_name swallows the TypeError of `k in d`, then `key in d` raises.
+\*   d a text   : `key in d` is a legal substring test.  If the key occurs in the text the next
+\*                thing evaluated is d[key] (TypeError: string indices must be integers); if not,
+\*                it is the item assignment d[key] = .. (TypeError) - and the old code had
+\*                already appended ("insert", path) by then.
 RECURSIVE Assign(_, _, _, _, _)
 Assign(n, keys, val, path, rec) ==
-  IF ~IsDict(n) THEN Failed(n)
+  IF IsLeaf(n) THEN
+    IF ~IsStr(n) THEN Failed(n)
+    ELSE LET k == CanonStr(keys[1], n.v)
+             p == Append(path, k)
+         IN IF k \in StrHas[n.v] THEN Failed(n)
+            ELSE [ok |-> FALSE, n |-> n, r |-> IF RecordFirst /\ rec THEN <<Ins(p)>> ELSE <<>>]
   ELSE
     LET k == Canon(keys[1], n.f)
         p == Append(path, k)
@@ -88,17 +113,16 @@ Assign(n, keys, val, path, rec) ==
                  IN [ok |-> TRUE, n |-> Dict(Put(n.f, k, sub.n)), r |-> IF rec THEN <<Ins(p)>> ELSE <<>>]
             ELSE LET sub == Assign(n.f[k], Tail(keys), val, p, rec)
                  IN IF sub.ok THEN [ok |-> TRUE, n |-> Dict(Put(n.f, k, sub.n)), r |-> sub.r]
-                    ELSE Failed(n)
+                    ELSE [ok |-> FALSE, n |-> n, r |-> sub.r]
 
-\* the assignments of one set(...) call, in order; asgs = sequence of [p |-> path, v |-> tree]
+\* the assignments of one set(...) call, in order; asgs = sequence of [p |-> path, v |-> tree].
+\* When one of them raises: n = what has been applied so far, r = everything in _record.
 RECURSIVE AssignAll(_, _, _)
 AssignAll(n, asgs, rec) ==
   IF asgs = <<>> THEN [ok |-> TRUE, n |-> n, r |-> rec]
   ELSE LET s == Assign(n, Head(asgs).p, Head(asgs).v, <<>>, TRUE)
-       IN IF s.ok THEN AssignAll(s.n, Tail(asgs), rec \o s.r) ELSE Failed(n)
-
-\* THE PROPERTY for a raising call: nothing is changed (n is the entry configuration)
-SetCall(n, asgs) == LET s == AssignAll(n, asgs, <<>>) IN IF s.ok THEN s ELSE Failed(n)
+       IN IF s.ok THEN AssignAll(s.n, Tail(asgs), rec \o s.r)
+          ELSE [ok |-> FALSE, n |-> n, r |-> rec \o s.r]
 
 \* what the code would leave behind if a raising call kept the earlier assignments
 \* (used only to name the root cause of a violation, never as an expectation)
@@ -109,26 +133,43 @@ PartialSet(n, asgs) ==
        IN IF s.ok THEN PartialSet(s.n, Tail(asgs)) ELSE n
 
 (* ------------------------------------------------ set.__exit__ (rollback) *)
+\* Every step returns [ok, n]: walking onto a scalar raises (setdefault / [] / pop do not exist
+\* or do not accept a key there) and the rest of the record is NOT replayed.
+YES(n) == [ok |-> TRUE, n |-> n]
+NOK(n) == [ok |-> FALSE, n |-> n]
+
 RECURSIVE Restore(_, _, _)      \* op = replace: parents by setdefault, then d[last] = v
 Restore(n, p, v) ==
-  IF ~IsDict(n) THEN n
-  ELSE IF Len(p) = 1 THEN Dict(Put(n.f, p[1], v))
+  IF ~IsDict(n) THEN NOK(n)
+  ELSE IF Len(p) = 1 THEN YES(Dict(Put(n.f, p[1], v)))
   ELSE LET child == IF p[1] \in DOMAIN n.f THEN n.f[p[1]] ELSE Empty
-       IN Dict(Put(n.f, p[1], Restore(child, Tail(p), v)))
+           sub   == Restore(child, Tail(p), v)
+       IN IF sub.ok THEN YES(Dict(Put(n.f, p[1], sub.n))) ELSE NOK(n)
 
 RECURSIVE Remove(_, _)          \* op = insert: walk down, stop on KeyError, pop(last, None)
 Remove(n, p) ==
-  IF ~IsDict(n) THEN n
-  ELSE IF Len(p) = 1 THEN Dict(Del(n.f, p[1]))
-  ELSE IF p[1] \in DOMAIN n.f THEN Dict(Put(n.f, p[1], Remove(n.f[p[1]], Tail(p))))
-  ELSE n
+  IF ~IsDict(n) THEN NOK(n)
+  ELSE IF Len(p) = 1 THEN YES(Dict(Del(n.f, p[1])))
+  ELSE IF p[1] \in DOMAIN n.f
+       THEN LET sub == Remove(n.f[p[1]], Tail(p))
+            IN IF sub.ok THEN YES(Dict(Put(n.f, p[1], sub.n))) ELSE NOK(n)
+  ELSE YES(n)
 
 RECURSIVE Rollback(_, _)        \* the record is replayed backwards
 Rollback(n, rec) ==
-  IF rec = <<>> THEN n
+  IF rec = <<>> THEN YES(n)
   ELSE LET e == rec[Len(rec)]
            m == IF e.op = "replace" THEN Restore(n, e.p, e.v) ELSE Remove(n, e.p)
-       IN Rollback(m, SubSeq(rec, 1, Len(rec) - 1))
+       IN IF m.ok THEN Rollback(m.n, SubSeq(rec, 1, Len(rec) - 1)) ELSE NOK(m.n)
+
+\* One call set(...): all assignments, or - when one raises - set.__init__ replays what is in
+\* _record (except BaseException: self.__exit__(); raise) and the call leaves behind whatever
+\* that rollback produces.  THE PROPERTY FailedSetIsAtomic says this is the entry configuration.
+SetCall(n, asgs) ==
+  LET s == AssignAll(n, asgs, <<>>)
+  IN IF s.ok THEN s ELSE [ok |-> FALSE, n |-> Rollback(s.n, s.r).n, r |-> <<>>]
+\* does the rollback inside a raising call itself raise?
+FailedRollbackOK(n, asgs) == LET s == AssignAll(n, asgs, <<>>) IN s.ok \/ Rollback(s.n, s.r).ok
 
 (* ----------------------------------- what get must return inside a context *)
 \* assignment i of a successful call is still visible iff no later assignment of the
